@@ -130,7 +130,8 @@ def make_probes(paths, codec, options, seed):
     parsed = asn1tools.parse_files(paths, options.get('encoding', 'utf-8'))
 
     return ProbeSet(parsed, seed, codec,
-                    options.get('numeric_enums', False), k=1, max_types=10,
+                    options.get('numeric_enums', False), k=1,
+                    max_types=options.get('probe_types', 10),
                     extra=extra_probes(options.get('numeric_enums', False)))
 
 
@@ -272,7 +273,7 @@ class C17(Engine):
                  'os.urandom in compiler processes (seeded PRNG)'],
     }
     tiers = {
-        'quick': dict(runs=100, wall_cap=170, chunk=1, minimise_s=60),
+        'quick': dict(runs=72, wall_cap=170, chunk=1, minimise_s=60),
         'thorough': dict(runs=10000, wall_cap=3300, chunk=2, minimise_s=180),
     }
 
@@ -289,7 +290,7 @@ class C17(Engine):
         # Python-tick crash points are largely equivalent to them; they are
         # executed with a stride in the quick tier and completely in the
         # thorough tier.
-        stride = 16 if tier == 'quick' else 1
+        stride = 24 if tier == 'quick' else 1
 
         kill_only = []
 
@@ -323,10 +324,10 @@ class C17(Engine):
                               'stride': stride,
                               'seed': mix(seed, 'sweep', scenario)})
 
-        # The sources rewritten by another actor at (every / every 12th)
+        # The sources rewritten by another actor at (every / every 16th)
         # Python tick of a running compile, into an empty and into a
         # populated directory; then put back and compiled again.
-        edit_stride = 12 if tier == 'quick' else 1
+        edit_stride = 16 if tier == 'quick' else 1
 
         for populated in (False, True):
             for start in range(1, 2000, span * edit_stride):
@@ -336,7 +337,7 @@ class C17(Engine):
                               'stride': edit_stride,
                               'seed': mix(seed, 'editsweep', populated)})
 
-        for index in range(max(1, runs // 8)):
+        for index in range(max(1, runs // 3)):
             items.append({'kind': 'bitflip',
                           'seed': mix(seed, 'C17-bitflip', index)})
 
@@ -565,27 +566,50 @@ class C17(Engine):
         codec = rng.choice(CODECS)
         args = {'codec': codec, 'numeric_enums': False, 'adbc': None,
                 'encoding': 'utf-8', 'proc': 'inproc'}
+        textual = large and rng.random() < 0.6
+
+        if textual:
+            # A changed name shows only where its type is probed: all of
+            # them in these histories.
+            args['probe_types'] = 80
+
         ops = [dict(args, op='compile')]
 
-        for _ in range(rng.choice([1, 1, 2])):
-            ops.append({'op': 'damage', 'kind': 'bitflip',
-                        'role': rng.choice(['db', 'db', 'wal', 'val[*]',
-                                            'val[*]']),
-                        'fraction': rng.random(), 'bit': rng.randrange(8)})
+        names = sorted(set(re.findall(
+            r'\b[a-z][A-Za-z0-9]*(?:-[A-Za-z0-9]+)*\b',
+            '\n'.join(text for _, text in files))))
+        names = [n for n in names if len(n) >= 3][:400]
+        text_kind = rng.choice(['bitflip-text', 'bitflip-name',
+                                'bitflip-name'])
 
-        if rng.random() < 0.5:
-            # Whatever the first call stored besides its own entry is read
-            # by a call with another codec / option.
-            other = dict(args)
+        # Several rounds of (flip, compile): damage that goes unnoticed
+        # accumulates; damage that is noticed makes the entry be rewritten.
+        for _ in range(rng.choice([1, 2, 4, 8] if textual else [1, 1, 2])):
+            for _ in range(rng.choice([1, 1, 2])):
+                ops.append({'op': 'damage',
+                            'kind': text_kind if textual else 'bitflip',
+                            'role': 'val[*]' if textual else rng.choice(
+                                ['db', 'db', 'wal', 'val[*]', 'val[*]']),
+                            'fraction': rng.random(),
+                            'bit': rng.randrange(8)})
 
-            if rng.random() < 0.5:
-                other['codec'] = rng.choice([c for c in CODECS if c != codec])
-            else:
-                other['numeric_enums'] = True
+                if ops[-1]['kind'] == 'bitflip-name':
+                    ops[-1]['names'] = names
 
-            ops.append(dict(other, op='compile'))
+            if rng.random() < 0.3:
+                # Whatever the first call stored besides its own entry is
+                # read by a call with another codec / option.
+                other = dict(args)
 
-        ops.append(dict(args, op='compile'))
+                if rng.random() < 0.5:
+                    other['codec'] = rng.choice([c for c in CODECS
+                                                 if c != codec])
+                else:
+                    other['numeric_enums'] = True
+
+                ops.append(dict(other, op='compile'))
+
+            ops.append(dict(args, op='compile'))
 
         return {'variants': [files], 'ops': ops, 'seed': run_seed,
                 'module': module_name, 'bitflip_experiment': True}
@@ -869,13 +893,14 @@ class C17(Engine):
 
             if name == 'damage':
                 done = fsfault.damage(cache, op['kind'], op['role'],
-                                      op['fraction'], op.get('bit', 0))
+                                      op['fraction'], op.get('bit', 0),
+                                      op.get('names', ()))
 
                 if done is not None:
                     tainted = True
                     result.stats['fault-damage-' + op['kind']] += 1
 
-                    if op['kind'] == 'bitflip':
+                    if op['kind'].startswith('bitflip'):
                         bitflips.append(done)
 
                 history.append(['damage', done])
@@ -1240,7 +1265,7 @@ class C17(Engine):
                         'sweep-{}-points'.format(m), 0)
                         for m in ('KILL', 'TORN', 'tick')},
                     'exhaustive': True,
-                    'tick_stride': 16 if tier == 'quick' else 1,
+                    'tick_stride': 24 if tier == 'quick' else 1,
                     'note': 'every libc call 1..N of the crashing operation '
                             'of each listed scenario was used as a crash '
                             'point in KILL and in TORN mode (exhaustive); '
